@@ -678,5 +678,57 @@ fn sm_reclaim_once() {
     std::mem::forget(sq);
 }
 
+//@ prop: C06 C01
+//@ tier: quick
+//@ what: the same for a MULTISHOT operation dropped mid-stream: Running with 0..=2 results still queued -> exactly one ASYNC_CANCEL for exactly this operation, state only marked Dropped; every further completion with F_MORE leaves it allocated; the final completion (any result) releases the resources exactly once; a stream that had already ended (Done, results still queued or not) or never started -> no cancel, released exactly once immediately
+//@ bound: multishot; status in {NotStarted, Running, Done} with 0..=2 queued results (symbolic); one more F_MORE completion or not; results any i32
+//@ encodes: <io_uring::op::State as OpState>::drop (multishot); io_uring::op::drop_state; io_uring::cq::Completion::process; io_uring::op::Shared::update
+//@ stubs: crate::lock -> try_lock model; Waker -> direct calls; <core::io::CustomOwner as Drop>::drop -> no-op
+fn sm_drop_multishot() {
+    let sq = ring(2);
+    let mut st: State<Multishot, Res, u32> = State::new(new_res(), 4);
+    let buf: *mut u8 = unsafe { st.data.as_ref().tail.resources.get().cast::<Res>().as_ref().unwrap().buf.as_ptr().cast_mut() };
+    let ud = st.user_data();
+    let which: u8 = kani::any();
+    kani::assume(which < 3);
+    let queued: u8 = kani::any();
+    kani::assume(queued <= 2);
+    let rs = [(5, F_MORE), (6, F_MORE)];
+    match which {
+        0 => {}
+        1 => ops::force_multi(&mut st, false, &rs[..queued as usize], Some(k::waker(0))),
+        _ => ops::force_multi(&mut st, true, &rs[..queued as usize], Some(k::waker(0))),
+    }
+    let tail0 = k::sq_tail();
+    unsafe { OpState::drop(&mut st, &sq) };
+    if which == 1 {
+        assert!(res_drops() == 0, "in flight: nothing released yet");
+        assert!(ops::state_tag(&st) == ops::Tag::Dropped);
+        assert!(k::sq_tail() == tail0 + 1, "exactly one cancel request");
+        let e = k::sqe_view(k::sqe(0));
+        let mut want = k::ZERO_SQE;
+        want.opcode = libc::IORING_OP_ASYNC_CANCEL as u8;
+        want.addr = ud;
+        want.user_data = 2;
+        want.flags = libc::IOSQE_CQE_SKIP_SUCCESS;
+        assert!(e == want, "cancels exactly this operation");
+        if kani::any() {
+            unsafe { crate::io_uring::cq::verif_c05::process(&cqe(ud, kani::any(), F_MORE)) };
+            assert!(res_drops() == 0, "more completions coming: still allocated");
+        }
+        unsafe { buf.write(0xEF) };
+        unsafe { crate::io_uring::cq::verif_c05::process(&cqe(ud, kani::any(), 0)) };
+        assert!(res_drops() == 1, "reclaimed exactly once by the final completion");
+        assert!(k::wakes(0) == 0, "the dropped stream's waker is not woken");
+    } else {
+        assert!(k::sq_tail() == tail0, "not in flight: no cancel request");
+        assert!(res_drops() == 1, "released exactly once, now");
+    }
+    kani::cover!(which == 1 && queued == 2);
+    kani::cover!(which == 2 && queued == 1);
+    kani::cover!(which == 0);
+    std::mem::forget(sq);
+}
+
 }
 
